@@ -1039,7 +1039,7 @@ func (x *g) qDML() []string {
 	q := t.Name // column qualifier: the file name without extension or the temporary table's name
 	src := x.bigTable("dmlSource")
 	var out []string
-	kinds := []int{25, 30, 20, 10, 10, 5}
+	kinds := []int{25, 25, 15, 10, 20, 5}
 	kind := fw.Weighted(x.t, "dmlKind", kinds)
 	switch x.failAt {
 	case "insertselect":
@@ -1085,6 +1085,12 @@ func (x *g) qDML() []string {
 		out = append(out, "UPDATE a SET a.v = b.v + 1, a.s = b.s FROM "+t.dmlTarget()+" a JOIN "+x.small.ref()+" b ON a.k = b.id"+x.where("a", 50))
 	case 4:
 		x.op("replace")
+		if key := x.pick("replaceKey", []string{"id", "id", "g", "k"}); key != "id" {
+			// a key that is not unique in the target: rows in different workers' ranges match the same given record
+			x.op("replace_nonunique_key")
+			out = append(out, "REPLACE INTO "+t.dmlTarget()+" ("+key+", v, s) USING ("+key+") SELECT a."+key+", a.v, a.s FROM "+src.ref()+" a"+x.where("a", 60))
+			break
+		}
 		out = append(out, "REPLACE INTO "+t.dmlTarget()+" (id, k, g, v, s, d, j) USING (id) SELECT a.id + "+x.pick("replaceShift", []string{"0", "50", "100000"})+", a.k, a.g, a.v, a.s, a.d, a.j FROM "+src.ref()+" a"+x.where("a", 60))
 	case 5:
 		x.op("alter_add")
